@@ -247,4 +247,276 @@ theorem decodeSet_data (addr : Bytes) (t : Template) (records : List (List Bytes
   have e : c + 4 + (body t records).length + pad.length = c + (4 + ((body t records).length + pad.length)) := by omega
   rw [e]
 
+/-! ## Level 2: template records and template flowsets -/
+
+theorem wfSpec_iff (s : Spec) :
+    Wire.V9.wfSpec s = true ↔ s.id < 65536 ∧ s.len < 65536 ∧ s.ent = 0 := by
+  simp only [Wire.V9.wfSpec, Bool.and_eq_true, decide_eq_true_eq, beq_iff_eq, and_assoc]
+
+theorem encodeSpec_length (s : Spec) : (Wire.V9.encodeSpec s).length = 4 := by
+  simp [Wire.V9.encodeSpec, be16_length]
+
+theorem specsBytes_length (specs : List Spec) :
+    ((specs.map Wire.V9.encodeSpec).flatten).length = 4 * specs.length := by
+  induction specs with
+  | nil => rfl
+  | cons s ss ih => simp only [List.map_cons, List.flatten_cons, List.length_append,
+      encodeSpec_length, ih, List.length_cons]; omega
+
+theorem readSpec_roundtrip (s : Spec) (hw : Wire.V9.wfSpec s = true) (rest : Bytes) (c : Nat) :
+    readSpec ⟨Wire.V9.encodeSpec s ++ rest, c⟩ = (.ok s, ⟨rest, c + 4⟩) := by
+  obtain ⟨h1, h2, h3⟩ := (wfSpec_iff s).1 hw
+  simp only [readSpec, Wire.V9.encodeSpec, List.append_assoc]
+  rw [rU16_be16 _ h1]
+  simp only
+  rw [rU16_be16 _ h2]
+  simp only [Nat.add_assoc]
+  cases s with
+  | mk id len ent => simp only at h3; subst h3; rfl
+
+theorem readSpecs_roundtrip : ∀ (specs : List Spec) (rest : Bytes) (c : Nat) (acc : List Spec),
+    specs.all Wire.V9.wfSpec = true →
+    readSpecs specs.length ⟨(specs.map Wire.V9.encodeSpec).flatten ++ rest, c⟩ acc =
+      (.ok (acc ++ specs), ⟨rest, c + 4 * specs.length⟩) := by
+  intro specs
+  induction specs with
+  | nil => intro rest c acc _; simp [readSpecs]
+  | cons s ss ih =>
+    intro rest c acc hw
+    simp only [List.all_cons, Bool.and_eq_true] at hw
+    simp only [List.length_cons, readSpecs, List.map_cons, List.flatten_cons, List.append_assoc]
+    rw [readSpec_roundtrip s hw.1]
+    simp only
+    rw [ih rest (c + 4) (acc ++ [s]) hw.2]
+    simp only [List.append_assoc, List.singleton_append, Prod.mk.injEq, Rd.mk.injEq, true_and]
+    omega
+
+theorem wfTemplate_iff (t : Template) :
+    Wire.V9.wfTemplate t = true ↔
+      t.tid < 65536 ∧ t.scope = [] ∧ t.cnt = t.fields.length ∧ t.scnt = 0 ∧ 1 ≤ t.fields.length ∧
+      t.fields.length < 65536 ∧ t.fields.all Wire.V9.wfSpec = true := by
+  simp only [Wire.V9.wfTemplate, Bool.and_eq_true, decide_eq_true_eq, beq_iff_eq, and_assoc]
+
+theorem encodeTemplate_length (t : Template) :
+    (Wire.V9.encodeTemplate t).length = 4 + 4 * t.fields.length := by
+  simp only [Wire.V9.encodeTemplate, List.length_append, be16_length, specsBytes_length]
+
+/-- a template record is parsed back to the template it encodes -/
+theorem parseTpl_roundtrip (t : Template) (hw : Wire.V9.wfTemplate t = true) (rest : Bytes) (c : Nat) :
+    parseTpl ⟨Wire.V9.encodeTemplate t ++ rest, c⟩ =
+      (.ok t, ⟨rest, c + (Wire.V9.encodeTemplate t).length⟩) := by
+  obtain ⟨h1, h2, h3, h4, _, h6, h7⟩ := (wfTemplate_iff t).1 hw
+  rw [encodeTemplate_length]
+  simp only [parseTpl, Wire.V9.encodeTemplate, List.append_assoc]
+  rw [rU16_be16 _ h1]
+  simp only
+  rw [rU16_be16 _ h6]
+  simp only
+  rw [readSpecs_roundtrip t.fields rest _ [] h7]
+  simp only [List.nil_append]
+  cases t with
+  | mk tid cnt scnt scope fields =>
+    simp only at h2 h3 h4
+    subst h2 h3 h4
+    simp only [Prod.mk.injEq, Rd.mk.injEq, true_and]
+    omega
+
+theorem wfOptTemplate_iff (t : Template) :
+    Wire.V9.wfOptTemplate t = true ↔
+      t.tid < 65536 ∧ t.cnt = 0 ∧ t.scnt = 0 ∧ 4 * t.scope.length < 65536 ∧
+      4 * t.fields.length < 65536 ∧ t.scope.all Wire.V9.wfSpec = true ∧
+      t.fields.all Wire.V9.wfSpec = true := by
+  simp only [Wire.V9.wfOptTemplate, Bool.and_eq_true, decide_eq_true_eq, beq_iff_eq, and_assoc]
+
+theorem encodeOptTemplate_length (t : Template) :
+    (Wire.V9.encodeOptTemplate t).length = 6 + 4 * t.scope.length + 4 * t.fields.length := by
+  simp only [Wire.V9.encodeOptTemplate, List.length_append, be16_length, specsBytes_length]
+
+/-- an options template record is parsed back to the template it encodes -/
+theorem parseOptTpl_roundtrip (t : Template) (hw : Wire.V9.wfOptTemplate t = true) (rest : Bytes)
+    (c : Nat) :
+    parseOptTpl ⟨Wire.V9.encodeOptTemplate t ++ rest, c⟩ =
+      (.ok t, ⟨rest, c + (Wire.V9.encodeOptTemplate t).length⟩) := by
+  obtain ⟨h1, h2, h3, h4, h5, h6, h7⟩ := (wfOptTemplate_iff t).1 hw
+  rw [encodeOptTemplate_length]
+  simp only [parseOptTpl, Wire.V9.encodeOptTemplate, List.append_assoc]
+  rw [rU16_be16 _ h1]
+  simp only
+  rw [rU16_be16 _ h4]
+  simp only
+  rw [rU16_be16 _ h5]
+  simp only
+  have e1 : 4 * t.scope.length / 4 = t.scope.length := by omega
+  have e2 : 4 * t.fields.length / 4 = t.fields.length := by omega
+  rw [e1, e2, readSpecs_roundtrip t.scope _ _ [] h6]
+  simp only
+  rw [readSpecs_roundtrip t.fields rest _ [] h7]
+  simp only [List.nil_append]
+  cases t with
+  | mk tid cnt scnt scope fields =>
+    simp only at h2 h3
+    subst h2 h3
+    simp only [Prod.mk.injEq, Rd.mk.injEq, true_and]
+    omega
+
+/-- octets of a list of (options) template records under an encoder `enc` -/
+def tbody (enc : Template → Bytes) (ts : List Template) : Bytes := (ts.map enc).flatten
+
+theorem tbody_cons (enc : Template → Bytes) (t : Template) (ts : List Template) :
+    tbody enc (t :: ts) = enc t ++ tbody enc ts := by simp [tbody]
+
+/-- **C06 level 2c (template loop)**: the loop of a template flowset (id 0: `enc = encodeTemplate`,
+id 1: `enc = encodeOptTemplate`) inserts exactly the announced templates, in order, adds no record,
+stops in front of the padding -/
+theorem setLoop_tpl (ctx : Ctx) (enc : Template → Bytes) (hsid : ctx.setId = 0 ∨ ctx.setId = 1) :
+    ∀ (ts : List Template) (pad rest : Bytes) (fuel : Nat) (st : St),
+      (∀ t ∈ ts, 4 < (enc t).length ∧ ∀ rest c,
+        (if ctx.setId = 0 then parseTpl ⟨enc t ++ rest, c⟩ else parseOptTpl ⟨enc t ++ rest, c⟩) =
+          (.ok t, ⟨rest, c + (enc t).length⟩)) →
+      pad.length ≤ 4 →
+      st.r.rem = tbody enc ts ++ (pad ++ rest) →
+      leftInt ctx st.r = (((tbody enc ts).length + pad.length : Nat) : Int) →
+      ts.length < fuel →
+      setLoop ctx fuel st =
+        ({ st with r := ⟨pad ++ rest, st.r.cnt + (tbody enc ts).length⟩,
+                   cache := insertAll ctx.addr st.cache ts }, none) := by
+  intro ts
+  induction ts with
+  | nil =>
+    intro pad rest fuel st _ hpad hrem hlen hfuel
+    cases fuel with
+    | zero => omega
+    | succ n =>
+      simp only [setLoop]
+      have hc : contCond ctx st.r = false := by
+        simp only [contCond, Bool.and_eq_false_iff, decide_eq_false_iff_not]
+        left
+        rw [hlen]; simp only [tbody, List.map_nil, List.flatten_nil, List.length_nil]; omega
+      rw [hc]
+      simp only [tbody, List.map_nil, List.flatten_nil, List.nil_append, List.length_nil,
+        Nat.add_zero, insertAll, List.foldl_nil] at hrem ⊢
+      cases st with
+      | mk r cache rs =>
+        cases r with
+        | mk rem cnt => simp at hrem ⊢; exact hrem
+  | cons t ts ih =>
+    intro pad rest fuel st hm hpad hrem hlen hfuel
+    cases fuel with
+    | zero => simp at hfuel
+    | succ n =>
+      obtain ⟨hbig, hparse⟩ := hm t (by simp)
+      simp only [setLoop]
+      rw [tbody_cons] at hrem hlen
+      have hc : contCond ctx st.r = true := by
+        simp only [contCond, Bool.and_eq_true, decide_eq_true_eq]
+        constructor
+        · rw [hlen]; simp only [List.length_append]; omega
+        · rw [hrem]; simp only [List.length_append]; omega
+      rw [if_pos hc, if_pos hsid]
+      have hrem' : st.r = ⟨enc t ++ (tbody enc ts ++ (pad ++ rest)), st.r.cnt⟩ := by
+        cases hst : st.r with
+        | mk rem cnt =>
+          rw [hst] at hrem
+          simp only at hrem ⊢
+          rw [hrem, List.append_assoc]
+      have hp := hparse (tbody enc ts ++ (pad ++ rest)) st.r.cnt
+      rw [← hrem'] at hp
+      have hp' : (if ctx.setId = 0 then parseTpl st.r else parseOptTpl st.r) =
+          (.ok t, ⟨tbody enc ts ++ (pad ++ rest), st.r.cnt + (enc t).length⟩) := by
+        split
+        · rename_i h0; rw [if_pos h0] at hp; exact hp
+        · rename_i h0; rw [if_neg h0] at hp; exact hp
+      rw [hp']
+      simp only
+      have := ih pad rest n
+        { st with r := ⟨tbody enc ts ++ (pad ++ rest), st.r.cnt + (enc t).length⟩,
+                  cache := st.cache.insert ctx.addr t.tid t }
+        (fun r hr => hm r (by simp [hr])) hpad rfl
+        (by simp only [List.length_append, leftInt] at hlen ⊢; omega)
+        (by simp only [List.length_cons] at hfuel; omega)
+      rw [this]
+      simp only [tbody_cons, List.length_append, insertAll, List.foldl_cons, Nat.add_assoc]
+
+theorem tbody_length_ge (enc : Template → Bytes) :
+    ∀ (ts : List Template), (∀ t ∈ ts, 4 < (enc t).length) → ts.length ≤ (tbody enc ts).length := by
+  intro ts
+  induction ts with
+  | nil => intro _; simp
+  | cons x xs ih =>
+    intro h
+    have := ih (fun r hr => h r (by simp [hr]))
+    have hx := h x (by simp)
+    simp only [tbody_cons, List.length_append, List.length_cons]
+    omega
+
+/-- **C06 level 2d (template flowset)**: `decodeSet` consumes the whole encoded template flowset,
+inserts exactly its templates (in order, a later one overriding an earlier one with the same id),
+adds no record, reports no error -/
+theorem decodeSet_tpl (addr : Bytes) (ts : List Template) (pad rest : Bytes)
+    (c fuel : Nat) (cache : Cache) (recs : List Record)
+    (hw : Wire.V9.wfSet addr cache (.tpl ts pad) = true) (hfuel : ts.length < fuel) :
+    decodeSet addr fuel ⟨⟨Wire.V9.encodeTemplateSet ts pad ++ rest, c⟩, cache, recs⟩ =
+      (⟨⟨rest, c + (Wire.V9.encodeTemplateSet ts pad).length⟩, insertAll addr cache ts, recs⟩, none) := by
+  simp only [Wire.V9.wfSet, Wire.V9.wfSetLen, Bool.and_eq_true, decide_eq_true_eq,
+    List.all_eq_true] at hw
+  obtain ⟨⟨_, hts⟩, hpad, hlen⟩ := hw
+  unfold Wire.V9.encodeTemplateSet
+  rw [decodeSet_header addr fuel 0 _ pad rest c cache recs (by decide) hlen]
+  simp only [setBody, lookupTpl, if_neg (by decide : ¬ (0 > 255)), Option.getD_none]
+  have hb : (ts.map Wire.V9.encodeTemplate).flatten = tbody Wire.V9.encodeTemplate ts := rfl
+  rw [hb] at hlen ⊢
+  have hloop := setLoop_tpl ⟨addr, 0, 4 + (tbody Wire.V9.encodeTemplate ts ++ pad).length, c, emptyTpl⟩
+    Wire.V9.encodeTemplate (Or.inl rfl) ts pad rest fuel
+    ⟨⟨tbody Wire.V9.encodeTemplate ts ++ (pad ++ rest), c + 4⟩, cache, recs⟩
+    (by
+      intro t ht
+      have hwt := hts t ht
+      obtain ⟨_, _, _, _, h5, _, _⟩ := (wfTemplate_iff t).1 hwt
+      refine ⟨by rw [encodeTemplate_length]; omega, ?_⟩
+      intro rest c
+      simp only [if_true]
+      exact parseTpl_roundtrip t hwt rest c)
+    hpad rfl (by simp only [leftInt, List.length_append]; omega) hfuel
+  rw [hloop]
+  simp only
+  rw [skipRest_pad _ _ pad rest (c + 4 + (tbody Wire.V9.encodeTemplate ts).length) rfl
+    (by simp only [leftInt, List.length_append]; omega)]
+  simp only [encodeSet_length, List.length_append] at hlen ⊢
+  have e : c + 4 + (tbody Wire.V9.encodeTemplate ts).length + pad.length =
+      c + (4 + ((tbody Wire.V9.encodeTemplate ts).length + pad.length)) := by omega
+  rw [e]
+
+theorem decodeSet_optTpl (addr : Bytes) (ts : List Template) (pad rest : Bytes)
+    (c fuel : Nat) (cache : Cache) (recs : List Record)
+    (hw : Wire.V9.wfSet addr cache (.optTpl ts pad) = true) (hfuel : ts.length < fuel) :
+    decodeSet addr fuel ⟨⟨Wire.V9.encodeOptTemplateSet ts pad ++ rest, c⟩, cache, recs⟩ =
+      (⟨⟨rest, c + (Wire.V9.encodeOptTemplateSet ts pad).length⟩, insertAll addr cache ts, recs⟩, none) := by
+  simp only [Wire.V9.wfSet, Wire.V9.wfSetLen, Bool.and_eq_true, decide_eq_true_eq,
+    List.all_eq_true] at hw
+  obtain ⟨⟨_, hts⟩, hpad, hlen⟩ := hw
+  unfold Wire.V9.encodeOptTemplateSet
+  rw [decodeSet_header addr fuel 1 _ pad rest c cache recs (by decide) hlen]
+  simp only [setBody, lookupTpl, if_neg (by decide : ¬ (1 > 255)), Option.getD_none]
+  have hb : (ts.map Wire.V9.encodeOptTemplate).flatten = tbody Wire.V9.encodeOptTemplate ts := rfl
+  rw [hb] at hlen ⊢
+  have hloop := setLoop_tpl ⟨addr, 1, 4 + (tbody Wire.V9.encodeOptTemplate ts ++ pad).length, c, emptyTpl⟩
+    Wire.V9.encodeOptTemplate (Or.inr rfl) ts pad rest fuel
+    ⟨⟨tbody Wire.V9.encodeOptTemplate ts ++ (pad ++ rest), c + 4⟩, cache, recs⟩
+    (by
+      intro t ht
+      have hwt := hts t ht
+      refine ⟨by rw [encodeOptTemplate_length]; omega, ?_⟩
+      intro rest c
+      simp only [if_neg (by decide : ¬ ((1 : Nat) = 0))]
+      exact parseOptTpl_roundtrip t hwt rest c)
+    hpad rfl (by simp only [leftInt, List.length_append]; omega) hfuel
+  rw [hloop]
+  simp only
+  rw [skipRest_pad _ _ pad rest (c + 4 + (tbody Wire.V9.encodeOptTemplate ts).length) rfl
+    (by simp only [leftInt, List.length_append]; omega)]
+  simp only [encodeSet_length, List.length_append] at hlen ⊢
+  have e : c + 4 + (tbody Wire.V9.encodeOptTemplate ts).length + pad.length =
+      c + (4 + ((tbody Wire.V9.encodeOptTemplate ts).length + pad.length)) := by omega
+  rw [e]
+
 end Vflow.V9
